@@ -173,9 +173,10 @@ func goExprs(vals []gopast.Expr) []ast.Expr {
 
 func goFuncType(v *gopast.FuncType) *ast.FuncType {
 	return &ast.FuncType{
-		Func:    v.Func,
-		Params:  goFieldList(v.Params),
-		Results: goFieldList(v.Results),
+		Func:       v.Func,
+		TypeParams: goFieldList(v.TypeParams),
+		Params:     goFieldList(v.Params),
+		Results:    goFieldList(v.Results),
 	}
 }
 
